@@ -509,7 +509,7 @@ func c07Storm(rng *hx.Rng, nReloads, clients int) (kinds, reloads, requests stri
 }
 
 func c07StormGen(g *hx.Gen) {
-	storms, nReloads := 6, 12
+	storms, nReloads := 10, 30
 	if g.Thorough() {
 		storms, nReloads = 40, 50
 	}
